@@ -204,11 +204,21 @@ theorem reverse_short {α} (l : List α) (h : l.length ≤ 1) : l.reverse = l :=
 def Node.withDetached (d : Option Path) : Node → Node
   | .mk c ch dg sg => .mk { c with detached := d } ch dg sg
 
+/-- the record a round trip returns: live executors stripped, detached path `d`, and the cache of a
+composite forgotten (every adopted child calls `add_child`) -/
+@[simp] def imgCore (c : Core) (d : Option Path) (ch : List Node) : Core :=
+  { c.forState none with detached := d, cached := if ch.isEmpty then c.cached else none }
+
+theorem afterAdopt_fields (c : Core) (cs : List Node) :
+    (c.afterAdopt cs).kind = c.kind ∧ (c.afterAdopt cs).ins = c.ins ∧ (c.afterAdopt cs).outs = c.outs ∧
+    (c.afterAdopt cs).inLinks = c.inLinks ∧ (c.afterAdopt cs).outLinks = c.outLinks := by
+  unfold Core.afterAdopt; split <;> simp
+
 mutual
 /-- the graph a round trip returns when no lookup fails and no link pushes a new value -/
 def img (cfg : Cfg) (d : Option Path) : Node → Node
   | .mk c ch dg sg =>
-    .mk { c.forState none with detached := d } (imgL cfg ch)
+    .mk (imgCore c d ch) (imgL cfg ch)
       (restore cfg (strings (inDom ch) dg.inl))
       (restoreSig cfg (strings (sInDom ch) sg.inl) (strings (sOutDom ch) sg.outl))
 def imgL (cfg : Cfg) : List Node → List Node
@@ -219,14 +229,14 @@ end
 @[simp] theorem Exec.strip_strip (e : Exec) : e.strip.strip = e.strip := by cases e <;> rfl
 
 @[simp] theorem img_core (cfg : Cfg) (d : Option Path) (n : Node) :
-    (img cfg d n).core = { n.core.forState none with detached := d } := by
-  cases n; simp [img, Node.core]
+    (img cfg d n).core = imgCore n.core d n.children := by
+  cases n; simp [img, Node.core, Node.children]
 
 @[simp] theorem adopt_core (n : Node) : n.adopt.core = { n.core with detached := none } := by
   cases n; simp [Node.adopt, Node.core]
 
 theorem adopt_img (cfg : Cfg) (d : Option Path) (n : Node) : (img cfg d n).adopt = img cfg none n := by
-  cases n; simp [img, Node.adopt]
+  cases n; simp [img, Node.adopt, imgCore]
 
 /-- the children saved under path `p` come back with that detached path … -/
 def imgLd (cfg : Cfg) (d : Option Path) (ns : List Node) : List Node := ns.map (img cfg d)
@@ -369,7 +379,7 @@ theorem quiet_img (cfg : Cfg) : ∀ (n : Node) (d : Option Path) (x : Lbl) (v : 
   | .mk c ch dg sg, d, x, v, h => by
     simp only [Quiet] at h
     obtain ⟨hr, hs, hl⟩ := h
-    simp only [img, Quiet, Core.forState]
+    simp only [img, Quiet, imgCore, Core.forState]
     refine ⟨hr, hs, ?_⟩
     cases hlk : lookupLink c.inLinks x with
     | none => simp
@@ -381,7 +391,7 @@ theorem quietL_img (cfg : Cfg) : ∀ (ns : List Node) (cl x : Lbl) (v : Val),
   | [], _, _, _, _ => by simp [imgL, QuietL]
   | n :: ns, cl, x, v, h => by
     simp only [QuietL] at h
-    simp only [imgL, QuietL, img_core, Core.forState]
+    simp only [imgL, QuietL, img_core, imgCore, Core.forState]
     by_cases hc : n.core.label = cl
     · simp only [hc, if_true] at h ⊢
       exact quiet_img cfg n none x v h
@@ -446,6 +456,14 @@ theorem forgeOut_ok (cfg : Cfg) (cs : List Node) (c : Core) :
       rw [this]
       exact ih'
 
+theorem afterAdopt_imgLd (cfg : Cfg) (c : Core) (pp d : Option Path) (ch : List Node) :
+    (c.forState pp).afterAdopt (imgLd cfg d ch) = imgCore c (c.forState pp).detached ch := by
+  cases ch <;> simp [Core.afterAdopt, imgLd, Core.forState]
+
+theorem afterAdopt_imgL (cfg : Cfg) (c : Core) (d : Option Path) (ch : List Node) :
+    ((imgCore c d ch).forState none).afterAdopt (imgL cfg ch) = imgCore c d ch := by
+  cases ch <;> simp [Core.afterAdopt, imgL, Core.forState]
+
 theorem setstate_ok (cfg : Cfg) (c : Core) (cs : List Node)
     (ds ss fo : List (Addr × Addr))
     (hstart : ∀ l ∈ c.starting, l ∈ childLabels cs)
@@ -456,18 +474,23 @@ theorem setstate_ok (cfg : Cfg) (c : Core) (cs : List Node)
     (hq : c.kind.hasLinks = true → cfg.pushLinks = true →
       (∀ p ∈ c.inLinks, ∀ v, valOf c.ins p.1 = some v → QuietL (cs.map Node.adopt) p.2.1 p.2.2 v) ∧
       (∀ p ∈ c.outLinks, ∀ v, outValOf (cs.map Node.adopt) p.1 = some v → setVal c.outs p.2 v = c.outs)) :
-    setstate cfg c cs ds ss fo = .ok (.mk c (cs.map Node.adopt) (restore cfg ds) (restoreSig cfg ss fo)) := by
+    setstate cfg c cs ds ss fo =
+      .ok (.mk (c.afterAdopt cs) (cs.map Node.adopt) (restore cfg ds) (restoreSig cfg ss fo)) := by
   have hs : (c.starting.all fun l => decide (l ∈ childLabels cs)) = true := by
     rw [List.all_eq_true]; intro l hl'; simpa using hstart l hl'
+  obtain ⟨f1, f2, f3, f4, f5⟩ := afterAdopt_fields c cs
   unfold setstate
   simp only [hs, hds, hss, hfo, Bool.not_true, Bool.and_false, Bool.false_eq_true, if_false]
+  generalize hc' : c.afterAdopt cs = c' at f1 f2 f3 f4 f5 ⊢
   by_cases hk : c.kind.hasLinks = true
   · have L := hl hk
-    simp only [hk, if_true]
-    rw [forgeIn_ok cfg c _ c.inLinks L.inSrc L.inDst (fun hp => (hq hk hp).1)]
+    simp only [f1, hk, if_true]
+    rw [f4, forgeIn_ok cfg c' _ c.inLinks (by rw [f2]; exact L.inSrc) L.inDst
+      (fun hp => by rw [f2]; exact (hq hk hp).1)]
     simp only []
-    rw [forgeOut_ok cfg _ c c.outLinks L.outSrc L.outDst (fun hp => (hq hk hp).2)]
-  · simp [hk]
+    rw [f5, forgeOut_ok cfg _ c' c.outLinks L.outSrc (by rw [f3]; exact L.outDst)
+      (fun hp => by rw [f3]; exact (hq hk hp).2)]
+  · simp [f1, hk]
 
 mutual
 /-- no lookup fails when a well-formed graph is unpickled, and re-forging settled links through
@@ -484,7 +507,7 @@ theorem load_save_node (cfg : Cfg) :
     obtain ⟨e1, e2, e3, e4, e5⟩ := doms_imgL cfg ch
     simp only [save, load, ih]
     rw [setstate_ok cfg]
-    · simp [img, imgLd_adopt, Node.core, Core.forState]
+    · simp only [img, imgLd_adopt, Node.core, afterAdopt_imgLd]
     · intro l hl; rw [doms_imgLd]; exact hst l (by simpa [Core.forState] using hl)
     · rw [imgLd_adopt, e2, e3]
       exact checkStrs_strings _ _ _ _ (fun a ha => ha) (fun a _ o ho => hd.closed a o ho)
@@ -738,8 +761,8 @@ theorem fileLoad_save (cfg : Cfg) (n : Node) (hwf : WF n) (hset : cfg.pushLinks 
       cases h
   have hnd2 := restore_inl_nodup cfg sg.inl _ hsi (fun a _ => hs.nodupIn a)
   simp only [Node.core] at hl ⊢
-  simp only [fileLoad, hl, img, e2, e4, e5, hS1, hS3, restoreSig_inl, forState_idem]
-  have hcls : (c.forState none).cls = c.cls := by simp [Core.forState]
+  simp only [fileLoad, hl, img, e2, e4, e5, hS1, hS3, restoreSig_inl]
+  have hcls : (imgCore c (c.forState pp).detached ch).cls = c.cls := by simp [Core.forState]
   simp only [hcls, ne_eq, not_true_eq_false, if_false]
   rw [setstate_ok cfg]
   · refine ⟨_, rfl, fun p => ?_⟩
@@ -748,7 +771,7 @@ theorem fileLoad_save (cfg : Cfg) (n : Node) (hwf : WF n) (hset : cfg.pushLinks 
     have t2 := table_congr _ _ _
       (restore_sig_faithful' cfg _ _ sg _ sg.outl hsi hso hs hmem hnd2 (fun _ _ => rfl) o2)
     have ih := obsL_img cfg ch hch och
-    simp only [Node.withDetached, obs, e2, e5, ih, t1, t2]
+    simp only [Node.withDetached, obs, e2, e5, ih, t1, t2, afterAdopt_imgL]
     simp [Core.seen, Core.forState]
   · intro l hl'; rw [e1]; exact hst l (by simpa [Core.forState] using hl')
   · rw [imgL_adopt, e2, e3]
